@@ -1,7 +1,7 @@
 (* Proofs/MbiSweepProofs.v -- C01: sweeps over every class / family of the generated database, and the refutation
    witnesses of the known findings (computed on the faithful model). *)
 From Coq Require Import ZArith NArith List Bool Lia.
-Require Import Value Bytes BytesProofs MbiMixinModel GenMbi MbiModel MbiProofs MbiRtProofs.
+Require Import Value Bytes BytesProofs MbiMixinModel GenMbi MbiModel MbiProofs MbiRtProofs MbiKindsProofs.
 Import ListNotations.
 Local Open Scope Z_scope.
 
@@ -29,7 +29,7 @@ Definition cert_cut_hyp (c : mbi_class) : bool :=
 Definition wf_class (c : mbi_class) : bool :=
   nodupb (c_mixins c) && (0 <=? c_type c) && (c_type c <? 64) && has c MixinApp &&
   negb (has c MixinTrustZone && has c MixinTrustZoneMandatory) &&
-  (wf_plain_crc c || kind_signed_v1 c || kind_signed_v21 c || kind_encrypted c || negb (supported c)) &&
+  (wf_plain_crc c || wf_v1 c || wf_v21 c || kind_encrypted c || negb (supported c)) &&
   (if (kind_signed_v1 c || kind_signed_v21 c) && negb (has c MixinRelocTable) then cert_cut_hyp c else true).
 Lemma wf_class_all : forallb wf_class gen_compositions = true.
 Proof. vm_compute. reflexivity. Qed.
@@ -39,7 +39,7 @@ Definition comp_of (o : Z * (Z * Z)) : option mbi_class := nth_comp (snd (snd o)
 Definition count_offers (p : mbi_class -> bool) : nat :=
   length (filter (fun o => match comp_of o with Some c => p c | None => false end) (flat_map offers_of gen_families)).
 Definition kind_counts : nat * nat * nat * nat * nat * nat :=
-  (count_offers (fun _ => true), count_offers wf_plain_crc, count_offers kind_signed_v1, count_offers kind_signed_v21,
+  (count_offers (fun _ => true), count_offers wf_plain_crc, count_offers wf_v1, count_offers wf_v21,
    count_offers kind_encrypted, count_offers (fun c => negb (supported c))).
 
 (* ------------------------------------------------------------------ class selection at parse time *)
